@@ -340,7 +340,7 @@ def run(rep, tier, seed):
         fixed = [r for r in oth if not r[2]["sig"].startswith("C17/gen/")]
         gen = [r for r in oth if r[2]["sig"].startswith("C17/gen/")]
         rnd.shuffle(lim); rnd.shuffle(gen)
-        sel = fixed + gen[:9000] + lim[:300]
+        sel = fixed + gen[:6000] + lim[:200]
     else:
         lim = [r for r in runs if r[2]["exp"] == "limit"]; oth = [r for r in runs if r[2]["exp"] != "limit"]
         rnd.shuffle(lim); rnd.shuffle(oth)
